@@ -117,6 +117,7 @@ def build_tree(rng, tier):
 PATTERNS = ['fc', '^fc', '2$', 'conv|head', 'Linear', 'Conv2d', 'MyLinear', 'inear', r'\.1', 'linear', 'LINEAR', '^l', 'L',
             '0', r'^\d', 'block', 'ColumnParallel', 'columnparallellinear', 'rowparallel', 'opt', '^$', 'x$', 'Sequential', 'head.*2']
 
+STATEFUL = ['(?i)^head', '(?i)LINEAR', r'(\d)\1', r'(fc|conv)\d', '(?i:CONV)', r'(?P<d>\d)(?P=d)', r'(?i)^L\d', r'(?x) f c', r'(block|net)(\d)\2']
 
 def encode(model, patterns, neox):
     """Independent walk: node ids by first discovery, children in _modules order."""
@@ -219,14 +220,21 @@ def run(tier, seed, rng):
     import warnings
     cov = Coverage('random module trees (depth <= 4; Sequential/ModuleList/ModuleDict/custom containers; shared instances; '
                    'subclasses of Linear/Conv2d; unsupported and parameter-free leaves; partially/fully frozen modules; None '
-                   'children; bare leaf as root; GPT-NeoX class-name variant) x random skip-pattern lists; non-trivial = >= 1 '
+                   'children; bare leaf as root; GPT-NeoX class-name variant) x random skip-pattern lists (every third with inline-flag / back-reference patterns); non-trivial = >= 1 '
                    'registered and >= 1 rejected supported leaf (frozen, skipped or shared); distinct by hash of the encoded graph')
     failures: list[Failure] = []
     n = 1500 if tier == "quick" else 12000
     cases, margs = [], []
+    import random as _random
+    rng2 = _random.Random(seed * 7919 + 13)      # separate stream: the other fields keep theirs
     for _ in range(n):
         model, neox = build_tree(rng, tier)
         patterns = rng.sample(PATTERNS, rng.choice([0, 0, 1, 1, 2, 3]))
+        if len(cases) % 3 == 2:
+            # stratum: patterns that carry whole-expression regex state (inline flags, numbered / named groups with back-references)
+            # next to ordinary ones, in any position: each pattern must be searched on its own
+            patterns = patterns[:2] + rng2.sample(STATEFUL, rng2.choice([1, 1, 2]))
+            rng2.shuffle(patterns)
         nodes, table, skipc, nodes_obj, rev = encode(model, patterns, neox)
         cases.append((model, neox, patterns, nodes, table, skipc, nodes_obj, rev))
         margs.append(('register', [nodes, table, skipc, 0]))
